@@ -695,6 +695,31 @@ class Interp:
             else:
                 st.env[name] = self.fresh_of(sort, name, st)
 
+    def forget(self, names, st):
+        """names assigned in a loop body but not carried by the invariant (loop-local temporaries, for-targets): outside one
+        iteration their value is unknown - the pre-loop value after zero iterations, the last iteration's otherwise. They get a
+        fresh value of the sort they had before the loop, or become unbound (reading them is then Unsupported)."""
+        for nme in names:
+            if nme not in st.env:
+                continue
+            v = st.env[nme]
+            if isinstance(v, bool) or isinstance(v, z3.BoolRef):
+                srt = "bool"
+            elif isinstance(v, int) or (isinstance(v, z3.ArithRef) and v.is_int()):
+                srt = "int"
+            elif isinstance(v, (float, XR)):
+                srt = "xr"
+            elif isinstance(v, SetLst):
+                srt = "set"
+            elif isinstance(v, Lst):
+                srt = "lst"
+            elif isinstance(v, z3.ExprRef) and v.sort() == ValSort:
+                srt = "val"
+            else:
+                del st.env[nme]
+                continue
+            st.env[nme] = self.fresh_of(srt, nme, st)
+
     def assigned_names(self, stmts):
         out = set()
         for node in ast.walk(ast.Module(body=list(stmts), type_ignores=[])):
@@ -730,6 +755,7 @@ class Interp:
         st_i = st.copy()
         i = z3.Int(self.fresh("i"))
         self.havoc(spec, st_i)
+        self.forget(sorted((assigned - plain) | loopvars), st_i)
         st_i.path.append(i >= 0)
         st_i.path.append(spec.invariant(self, st_i, i))
         exits = []   # states leaving the loop through break
@@ -762,6 +788,7 @@ class Interp:
         # 3. exit: havoc again, invariant + negated guard
         st_x = st.copy()
         self.havoc(spec, st_x)
+        self.forget(sorted((assigned - plain) | loopvars), st_x)
         if is_for:
             st_x.path.append(spec.invariant(self, st_x, n))
         else:
